@@ -306,11 +306,34 @@ func c03validate(p *core.Prog, res *core.Result, gi, gdb *types.Interface) {
 			fkey := core.FuncKey(fobj)
 			// channels handed to GraphInterface.BulkAdd inside this function
 			bulkChans := map[types.Object]bool{}
+			// parameters of `go func(p …){…}(arg …)` literals are bound to their arguments
+			bound := map[types.Object]types.Object{}
+			ast.Inspect(fd.Body, func(n ast.Node) bool {
+				if g, ok := n.(*ast.GoStmt); ok {
+					if lit, ok := g.Call.Fun.(*ast.FuncLit); ok {
+						i := 0
+						for _, f := range lit.Type.Params.List {
+							for _, nm := range f.Names {
+								if i < len(g.Call.Args) {
+									if po, ao := info.Defs[nm], defOrUse(info, g.Call.Args[i]); po != nil && ao != nil {
+										bound[po] = ao
+									}
+								}
+								i++
+							}
+						}
+					}
+				}
+				return true
+			})
 			ast.Inspect(fd.Body, func(n ast.Node) bool {
 				if call, ok := n.(*ast.CallExpr); ok {
 					if fn := core.CalleeFunc(info, call); fn != nil && fn.Name() == "BulkAdd" && isIfaceOrImpl(fn, gi) && len(call.Args) == 1 {
 						if o := defOrUse(info, call.Args[0]); o != nil {
 							bulkChans[o] = true
+							if a, ok := bound[o]; ok {
+								bulkChans[a] = true
+							}
 						}
 					}
 				}
